@@ -123,12 +123,12 @@ func adm_isSimpleStmt(s ast.Stmt) bool {
 // ---------------------------------------------------------------- handler summaries
 
 type admCtx struct {
-	p         *pkg
-	ciPosts   map[string]bool // clusterinfo method -> reaches POSTV1
-	ciKnown   map[string]bool // clusterinfo methods that exist
-	recvType  string
-	events    []string
-	seen      map[string]bool
+	p        *pkg
+	ciPosts  map[string]bool // clusterinfo method -> reaches POSTV1
+	ciKnown  map[string]bool // clusterinfo methods that exist
+	recvType string
+	events   []string
+	seen     map[string]bool
 }
 
 func (a *admCtx) emit(ev string) {
